@@ -275,7 +275,7 @@ func c11Scenario(h *H, root string, ti int) {
 		select {
 		case res := <-done:
 			return rec, res, be
-		case <-time.After(120 * time.Second):
+		case <-time.After(300 * time.Second):
 			cancel()
 			return rec, CmdResult{Err: errors.New("verif: backup timed out"), Exit: 99}, be
 		}
